@@ -105,7 +105,8 @@ def summary_find_version(I, clo, args, kwargs):
     segs, error, eci, micro, is_sa = b['segments'], b['error'], b['eci'], b['micro'], b['is_sa']
     I.oblige('find_version.pre.not_eci_and_micro', not (eci and micro), kind='pre')
     parts = segs.ghost_parts
-    ff = iso.first_fit(parts, level_name(error), bool(eci), micro, bool(is_sa))
+    ff = I.cached_term(('first_fit', level_name(error), bool(eci), micro, bool(is_sa), repr(parts.payload.e), repr([repr(getattr(c, 'e', c)) for c in parts.count.values()])),
+                       lambda: iso.first_fit(parts, level_name(error), bool(eci), micro, bool(is_sa)))
     if I.decide(ff == iso.NONE_FITS):
         raise PyRaise(encoder().DataOverflowError('Data too large.'))
     lo, hi = iso.M1, 40
